@@ -126,6 +126,14 @@ class ClassInfo(object):
     def fq(self):
         return '%s:%s' % (self.module.name, self.name)
 
+    def live_methods(self):
+        """Methods analysed on their own: private helpers whose every call
+        site was inlined into a caller are analysed there and skipped."""
+        index = getattr(self.module, 'index', None)
+        if index is None:
+            return list(self.methods.values())
+        return [f for f in self.methods.values() if not index.absorbed(f)]
+
     def __repr__(self):
         return '<Class %s>' % self.fq
 
@@ -232,6 +240,12 @@ class ModuleInfo(object):
             for func in cls.methods.values():
                 _add(func)
         return out
+
+    def live_functions(self):
+        index = getattr(self, 'index', None)
+        if index is None:
+            return self.all_functions()
+        return [f for f in self.all_functions() if not index.absorbed(f)]
 
     def line(self, lineno):
         lines = self.source.splitlines()
@@ -432,6 +446,22 @@ class Index(object):
             raise AnalysisError('anchor vanished: %s in %s' %
                                 (qualname, mod.rel))
         return mod.functions[qualname]
+
+    def absorbed(self, func):
+        """func is a private helper all of whose call sites were inlined
+        into its callers."""
+        if not self.inlining:
+            return False
+        mod = func.module
+        if not getattr(mod, '_expanded', False):
+            mod._expanded = True
+            for other in mod.all_functions():
+                other.node  # pylint: disable=pointless-statement
+        sites = getattr(self, 'inline_stats', {}).get(func.fq)
+        if not sites:
+            return False
+        return len(sites) >= getattr(self, 'inline_totals', {}).get(
+            func.fq, 10 ** 6)
 
     def resolve_call(self, func, call):
         """Resolve a call made inside ``func`` to a FuncInfo of the package:
